@@ -81,6 +81,10 @@ def generate(tier, seed):
         for tail in ['"', '', 'g"', '4"', '41"', '414"', ' "', '\\"', 'é"', '{41}"', '\n"']:
             texts.append('"\\' + ch + tail)
             texts.append('(a "x\\' + ch + tail + " b)")
+    for m in ["when", "unless", "if-let", "if-let*", "when-let", "while-let", "->", "->>", "thread-first", "thread-last", "quote"]:
+        for args in ["", "5", "5 1", "x y z", "nil", "nil 1", "(x) 1", "((x)) 1", "((x 1 2)) 1", "(5) 1", "((5 1)) 1", "\"s\" 1", ". 5", "5 . 1", "(x . 1) 2", "((x . 1)) 2", "(()) 1", "x", ":k 1", "((x 1) . 5) 1", "t t", "'a 'b"]:
+            for sh in ["(%s %s)", "'(a (%s %s))", "(defun f () (%s %s))", "(list (%s %s)", "`(,(%s %s))"]:
+                texts.append(sh % (m, args))
     plists = ["(&rest)", "(&optional)", "(&optional &rest)", "(&rest &optional)", "(a &rest)", "(a &optional)", "(&rest &rest)", "(&rest a b)", "(&optional &optional a)", "(&rest a &rest b)",
               "(a &optional b &rest)", "(&rest . a)", "(a . &rest)", "(&rest (a))", "(&rest 1)", "(&optional nil)", "(nil)", "(t)", "(:k)", "(a a)", "((a))", "(\"s\")", "(1)", "(&rest a)", "(&optional a)",
               "nil", "()", "a", "5", "(a &rest b)", "(&foo a)", "(&optional . a)"]
